@@ -61,7 +61,7 @@ pub fn run_burst(focus: &'static str, seed: u64, index: u64) -> CaseOut {
         weight_mode: WeightMode::Default, hash_mode: HashMode::Default, start_ns: rt::START_NS };
     let case = J::obj().with("engine", J::s("conc")).with("scenario", J::s("burst")).with("focus", J::s(focus)).with("seed", J::Int(seed as i128))
         .with("index", J::Int(index as i128)).with("threads", J::u(threads)).with("burst", J::u(burst)).with("command_buffer_size", J::u(cmd_buf))
-        .with("worker_delay_permille_spin_sleep", J::s(format!("{:?}", slow)));
+        .with("worker_delay_permille_spin_sleep", J::s(format!("{:?}", slow))).with("time_to_live_keys_expire_during_the_burst", J::Bool(index % 2 == 1));
     let mut counts = Counts::default();
     let mut findings = Vec::new();
     // keep the event log; slow the worker only (so that the queue really fills)
@@ -77,6 +77,13 @@ pub fn run_burst(focus: &'static str, seed: u64, index: u64) -> CaseOut {
     let panic_mark = rt::panic_count();
     let sut = Sut::new(sutcfg);
     let keys = rng.range(2, 6);
+    // every second case: the time-to-live puts expire while the burst runs (sweeps race the worker's deletes of those keys)
+    let expiring = index % 2 == 1;
+    let stop_clock = Arc::new(AtomicBool::new(false));
+    let advancer = if expiring {
+        let (clock, stop) = (sut.clock.clone(), stop_clock.clone());
+        Some(thread::spawn(move || { rt::register_helper_thread(); while !stop.load(Ordering::Relaxed) { clock.advance(NS / 2); thread::sleep(Duration::from_micros(250)); } }))
+    } else { None };
     let full_sends = Arc::new(AtomicU64::new(0));
     let mut crew: rt::Crew<(Vec<Sub>, u64)> = rt::Crew::new();
     for t in 0..threads {
@@ -99,7 +106,7 @@ pub fn run_burst(focus: &'static str, seed: u64, index: u64) -> CaseOut {
                         match rng.below(5) {
                             0..=1 => WriteOp::PutW { key, value: token(key, me, counter), weight: rng.range(1, 9) as i64 },
                             2 => WriteOp::Upsert { key, value: Some(token(key, me, counter)), weight: Some(rng.range(1, 9) as i64), ttl: None, remove_ttl: false },
-                            3 => WriteOp::PutWTtl { key, value: token(key, me, counter), weight: rng.range(30, 40) as i64, ttl: Duration::from_secs(3600) },
+                            3 => WriteOp::PutWTtl { key, value: token(key, me, counter), weight: rng.range(30, 40) as i64, ttl: Duration::from_secs(if expiring { 1 + n as u64 % 3 } else { 3600 }) },
                             _ => WriteOp::Delete { key },
                         }
                     };
@@ -136,11 +143,14 @@ pub fn run_burst(focus: &'static str, seed: u64, index: u64) -> CaseOut {
         Err(Waited::Deadlock(description)) => fail(&mut findings, &["C18", "C11"], "C18/deadlock/burst-writers-stuck".into(), format!("writers never returned from their calls: {}", description), case.clone()),
         Err(other) => findings.push(Finding { props: vec!["C11"], signature: "inconclusive/burst-writers".into(), detail: waited_name(&other), witness: J::Null, inconclusive: true }),
     }
+    stop_clock.store(true, Ordering::SeqCst);
+    if let Some(a) = advancer { let _ = a.join(); }
     sched().quiet();
     sched().quiet_mask.store(0, Ordering::SeqCst);
     let quiesced = sut.quiesce();
     let events = r.take_events();
     counts.add("commands_submitted", subs.len() as u64);
+    if expiring { counts.inc("bursts_with_expiring_keys"); }
     counts.add("sends_that_found_the_queue_full", full_sends.load(Ordering::Relaxed));
     let by_uid: HashMap<u64, &Sub> = subs.iter().map(|s| (s.uid, s)).collect();
     let witness_for = |uids: &[u64]| {
@@ -254,7 +264,7 @@ pub fn run_burst(focus: &'static str, seed: u64, index: u64) -> CaseOut {
             _ => {}
         }
     }
-    if quiesced_ok(&findings) {
+    if quiesced_ok(&findings) && !expiring {
         let snapshot = sut.snapshot();
         let held: BTreeSet<u64> = snapshot.stored.iter().map(|e| e.0).collect();
         let expected: BTreeSet<u64> = present.keys().copied().collect();
